@@ -1,26 +1,24 @@
 (* C01 extension: the four wrappers of the ANSI parser (Avatar, PCBoard, Ctrl-A, Renegade) and the ANSI parser itself at
-   STREAM level on the weak invariant W: every stream of any length runs through to a state, or stops in the
-   macro-nesting overflow (MDiverge: the known class); it never panics - whatever was resized, whatever macros are stored. *)
+   STREAM level on the weak invariant W: every stream of any length runs through to a state; it never panics - whatever was
+   resized, whatever macros are stored (a macro invocation nested deeper than MAX_MACRO_NESTING is an error value). *)
 From Coq Require Import ZArith NArith List Bool Lia.
 From IE Require Import Model.TermCore Model.AnsiTok Model.Emu Proofs.TermProofs Proofs.AnsiProofs Proofs.EmuProofs
                        Proofs.WeakInv Proofs.AnsiSafeW.
 Import ListNotations.
 Local Open Scope Z_scope.
 
-Definition NPM (Q : Prop) (o : mout) : Prop :=
-  match o with MOk m | MErr m => W (mt m) | MPanic _ => False | MDiverge => Q end.
-Lemma npm_weaken : forall (Q Q' : Prop) o, (Q -> Q') -> NPM Q o -> NPM Q' o.
-Proof. intros Q Q' [m|m|s|] H; cbn; auto. Qed.
-Lemma fallback_np : forall Q m ch, W (mt m) -> (Q \/ macros (ps (am m)) = []) -> NPM Q (fallback m ch).
+Definition NPM (o : mout) : Prop :=
+  match o with MOk m | MErr m => W (mt m) | MPanic _ => False end.
+Lemma fallback_np : forall m ch, W (mt m) -> NPM (fallback m ch).
 Proof.
-  intros Q m ch HW HQ. unfold fallback, ansi_step. pose proof (astep_np_or Q MACRO_FUEL (am m) ch HW HQ) as G.
-  destruct (astep MACRO_FUEL (am m) ch); exact G.
+  intros m ch HW. unfold fallback. pose proof (ansi_step_np (am m) ch HW) as G.
+  destruct (ansi_step (am m) ch); exact G.
 Qed.
-Lemma npm_ok : forall Q m t, W t -> NPM Q (mok m t). Proof. intros; assumption. Qed.
-Lemma npm_lift : forall Q m r, okW r -> NPM Q (mlift m r).
-Proof. intros Q m r (t' & E & HW). rewrite E. exact HW. Qed.
+Lemma npm_ok : forall m t, W t -> NPM (mok m t). Proof. intros; assumption. Qed.
+Lemma npm_lift : forall m r, okW r -> NPM (mlift m r).
+Proof. intros m r (t' & E & HW). rewrite E. exact HW. Qed.
 
-Ltac mwifs := repeat match goal with |- NPM _ (if ?c then _ else _) => destruct c end.
+Ltac mwifs := repeat match goal with |- NPM (if ?c then _ else _) => destruct c end.
 Ltac mwok HW := apply npm_ok; wkeep HW.
 Ltac mwlift HW := apply npm_lift; wlim HW.
 
@@ -29,71 +27,47 @@ Proof. intros t ice b HW. eapply W_pgeo; [apply attr_from_u8_pgeo|exact HW]. Qed
 
 (* ---- Avatar ------------------------------------------------------------------------------------------------------------------ *)
 (* ^Y c n: the character is fed n times through the ANSI parser *)
-Lemma avt_repeat_np : forall (Q : Prop) n m ch, Q -> W (mt m) -> NPM Q (avt_repeat n m ch).
+Lemma avt_repeat_np : forall n m ch, W (mt m) -> NPM (avt_repeat n m ch).
 Proof.
-  intros Q. induction n as [|k IH]; intros m ch HQ HW; cbn [avt_repeat]; [exact HW|].
-  pose proof (fallback_np Q m ch HW (or_introl HQ)) as G. destruct (fallback m ch) as [m1|m1|s|]; cbn in G |- *; auto.
+  induction n as [|k IH]; intros m ch HW; cbn [avt_repeat]; [exact HW|].
+  pose proof (fallback_np m ch HW) as G. destruct (fallback m ch) as [m1|m1|s]; cbn in G |- *; auto.
 Qed.
-(* ... and it cannot overflow the macro nesting when no macro is stored before the first repetition: a character other than
-   `\` leaves the macro table empty (astep_keeps_nomacro), and `\` never reaches the macro invoker (astep_np_not_z) *)
-Lemma fallback_keeps_nomacro : forall m ch, macros (ps (am m)) = [] -> ch <> 92 ->
-  match fallback m ch with MOk m1 | MErr m1 => macros (ps (am m1)) = [] | _ => True end.
+Lemma avatar_step_np : forall m ch, W (mt m) -> NPM (avatar_step m ch).
 Proof.
-  intros m ch HM N. unfold fallback, ansi_step. pose proof (astep_keeps_nomacro MACRO_FUEL (am m) ch HM N) as G.
-  destruct (astep MACRO_FUEL (am m) ch); exact G.
-Qed.
-Lemma fallback_np_not_z : forall m ch, W (mt m) -> ch <> 122 -> NPM False (fallback m ch).
-Proof.
-  intros m ch HW N. unfold fallback, ansi_step. pose proof (astep_np_not_z MACRO_FUEL (am m) ch HW N) as G.
-  destruct (astep MACRO_FUEL (am m) ch); exact G.
-Qed.
-Lemma avt_repeat_np_nomacro : forall n m ch, W (mt m) -> macros (ps (am m)) = [] -> NPM False (avt_repeat n m ch).
-Proof.
-  intros n m ch HW HM. destruct (Z.eq_dec ch 92) as [E|N].
-  - clear HM. revert m HW. induction n as [|k IH]; intros m HW; cbn [avt_repeat]; [exact HW|].
-    assert (N : ch <> 122) by lia.
-    pose proof (fallback_np_not_z m ch HW N) as G. destruct (fallback m ch) as [m1|m1|s|]; cbn in G |- *; auto.
-  - revert m HW HM. induction n as [|k IH]; intros m HW HM; cbn [avt_repeat]; [exact HW|].
-    pose proof (fallback_np False m ch HW (or_intror HM)) as G. pose proof (fallback_keeps_nomacro m ch HM N) as K.
-    destruct (fallback m ch) as [m1|m1|s|]; cbn in G |- *; auto.
-Qed.
-Lemma avatar_step_np : forall (Q : Prop) m ch, W (mt m) -> (Q \/ macros (ps (am m)) = []) -> NPM Q (avatar_step m ch).
-Proof.
-  intros Q m ch HW HQ. unfold avatar_step.
+  intros m ch HW. unfold avatar_step.
   mwifs; first [ apply fallback_np; assumption | exact HW | mwok HW | mwlift HW | idtac ].
-  all: try (destruct HQ as [HQ|HM]; [apply avt_repeat_np; [exact HQ|exact HW]
-                                    |eapply npm_weaken; [|apply avt_repeat_np_nomacro; [exact HW|exact HM]]; intros []]).
+  all: try (apply avt_repeat_np; exact HW).
   all: try (apply npm_ok; apply attr_from_u8_W; exact HW).
   all: try (apply npm_ok; apply set_cx_dec_W; exact HW).
 Qed.
 
 (* ---- PCBoard, Ctrl-A, Renegade --------------------------------------------------------------------------------------------------- *)
-Lemma pcboard_step_np : forall Q m ch, W (mt m) -> (Q \/ macros (ps (am m)) = []) -> NPM Q (pcboard_step m ch).
+Lemma pcboard_step_np : forall m ch, W (mt m) -> NPM (pcboard_step m ch).
 Proof.
-  intros Q m ch HW HQ. unfold pcboard_step. mwifs; first [ apply fallback_np; assumption | exact HW | idtac ].
+  intros m ch HW. unfold pcboard_step. mwifs; first [ apply fallback_np; assumption | exact HW | idtac ].
   all: apply npm_ok; apply attr_from_u8_W; exact HW.
 Qed.
-Lemma ctrla_step_np : forall Q m ch, W (mt m) -> (Q \/ macros (ps (am m)) = []) -> NPM Q (ctrla_step m ch).
+Lemma ctrla_step_np : forall m ch, W (mt m) -> NPM (ctrla_step m ch).
 Proof.
-  intros Q m ch HW HQ. unfold ctrla_step.
+  intros m ch HW. unfold ctrla_step.
   repeat match goal with
-         | |- NPM _ (if ?c then _ else _) => destruct c
-         | |- NPM _ (match index_of ?a ?b ?c with _ => _ end) => destruct (index_of a b c)
+         | |- NPM (if ?c then _ else _) => destruct c
+         | |- NPM (match index_of ?a ?b ?c with _ => _ end) => destruct (index_of a b c)
          end;
     first [ apply fallback_np; assumption | exact HW | mwok HW | mwlift HW | idtac ].
   all: try (apply npm_ok; destruct (_ <? 8); first [exact HW | (eapply W_pgeo; [|exact HW]); reflexivity]).
-  all: try (pose proof (fallback_np Q (with_e m 0 (eb m) (ec m) (ed m)) 1 HW HQ) as G; destruct (fallback _ 1); exact G).
+  all: try (pose proof (fallback_np (with_e m 0 (eb m) (ec m) (ed m)) 1 HW) as G; destruct (fallback _ 1); exact G).
 Qed.
-Lemma renegade_step_np : forall Q m ch, W (mt m) -> (Q \/ macros (ps (am m)) = []) -> NPM Q (renegade_step m ch).
+Lemma renegade_step_np : forall m ch, W (mt m) -> NPM (renegade_step m ch).
 Proof.
-  intros Q m ch HW HQ. unfold renegade_step. mwifs; first [ apply fallback_np; assumption | exact HW | mwok HW | idtac ].
+  intros m ch HW. unfold renegade_step. mwifs; first [ apply fallback_np; assumption | exact HW | mwok HW | idtac ].
 Qed.
 
 (* ---- the five machines built on the ANSI parser -------------------------------------------------------------------------------------- *)
 Definition wrapper (e : emu) : bool := match e with EAnsi | EAvatar | EPcb | ECtrlA | ERenegade => true | _ => false end.
-Lemma step_np : forall (Q : Prop) e m ch, wrapper e = true -> W (mt m) -> (Q \/ macros (ps (am m)) = []) -> NPM Q (step e m ch).
+Lemma step_np : forall e m ch, wrapper e = true -> W (mt m) -> NPM (step e m ch).
 Proof.
-  intros Q e m ch He HW HQ. destruct e; try discriminate; cbn [step].
+  intros e m ch He HW. destruct e; try discriminate; cbn [step].
   - apply fallback_np; assumption.
   - apply avatar_step_np; assumption.
   - apply pcboard_step_np; assumption.
@@ -101,53 +75,30 @@ Proof.
   - apply renegade_step_np; assumption.
 Qed.
 
-(* a macro is stored *)
-Definition Stored (m : mach) : Prop := macros (ps (am m)) <> [].
-
-(* Every stream, from every W state: it runs through to a state (which satisfies W again), or it stops in the
-   macro-nesting overflow, and then the character at which it stops was processed with a macro stored. *)
-Lemma run_np : forall e cs m, wrapper e = true -> W (mt m) ->
-  (exists m', run e m cs = RunOk m' /\ W (mt m')) \/
-  (run e m cs = RunDiverge /\ exists pre c post m', cs = pre ++ c :: post /\ run e m pre = RunOk m' /\ Stored m').
+(* Every stream, from every W state, runs through to a state, which satisfies W again. *)
+Lemma run_np : forall e cs m, wrapper e = true -> W (mt m) -> exists m', run e m cs = RunOk m' /\ W (mt m').
 Proof.
-  intros e cs. induction cs as [|c r IH]; intros m He HW; [left; exists m; auto|].
-  assert (D : macros (ps (am m)) = [] \/ Stored m).
-  { unfold Stored. destruct (macros (ps (am m))); [left; reflexivity|right; discriminate]. }
-  assert (K : forall m1, (step e m c = MOk m1 \/ step e m c = MErr m1) -> W (mt m1) ->
-           (exists m', run e m (c :: r) = RunOk m' /\ W (mt m')) \/
-           (run e m (c :: r) = RunDiverge /\ exists pre c' post m', c :: r = pre ++ c' :: post /\ run e m pre = RunOk m' /\ Stored m')).
-  { intros m1 E H1. assert (R : forall l, run e m (c :: l) = run e m1 l) by (intro l; cbn [run]; destruct E as [E|E]; rewrite E; reflexivity).
-    destruct (IH m1 He H1) as [(m' & E' & H')|(E' & pre & c' & post & m' & E1 & E2 & U)].
-    - left. exists m'. rewrite R. auto.
-    - right. rewrite R. split; [exact E'|]. exists (c :: pre), c', post, m'. repeat split; [rewrite E1; reflexivity| |exact U].
-      rewrite R. exact E2. }
-  destruct D as [HM|U].
-  - pose proof (step_np False e m c He HW (or_intror HM)) as G.
-    destruct (step e m c) as [m1|m1|s|] eqn:F; try contradiction; apply (K m1); auto.
-  - pose proof (step_np True e m c He HW (or_introl I)) as G.
-    destruct (step e m c) as [m1|m1|s|] eqn:F; try contradiction; try (apply (K m1); auto).
-    right. cbn [run]. rewrite F. split; [reflexivity|]. exists [], c, r, m. repeat split. exact U.
+  intros e cs. induction cs as [|c r IH]; intros m He HW; [exists m; auto|].
+  pose proof (step_np e m c He HW) as G. cbn [run].
+  destruct (step e m c) as [m1|m1|s]; try contradiction; apply IH; assumption.
 Qed.
 
 Lemma init_W : forall music bs w h, 1 <= w <= 132 -> 1 <= h <= 60 -> W (mt (init music bs w h)).
 Proof. intros. apply Inv09_W. apply init_09; assumption. Qed.
 
-(* (a)+(c)+(d): the ANSI parser and its four wrappers, every stream, every screen size *)
+(* (a)+(c)+(d): the ANSI parser and its four wrappers, every stream, every screen size: the run ends in a state *)
 Lemma c01_wrappers_proof : forall e music bs w h cs,
-  wrapper e = true -> 1 <= w <= 132 -> 1 <= h <= 60 ->
-  (exists m', run e (init music bs w h) cs = RunOk m') \/
-  (run e (init music bs w h) cs = RunDiverge /\
-   exists pre c post m', cs = pre ++ c :: post /\ run e (init music bs w h) pre = RunOk m' /\ Stored m').
+  wrapper e = true -> 1 <= w <= 132 -> 1 <= h <= 60 -> exists m', run e (init music bs w h) cs = RunOk m'.
 Proof.
   intros e music bs w h cs He Hw Hh.
-  destruct (run_np e cs (init music bs w h) He (init_W music bs w h Hw Hh)) as [(m' & E & _)|R]; [left; exists m'; exact E|right; exact R].
+  destruct (run_np e cs (init music bs w h) He (init_W music bs w h Hw Hh)) as (m' & E & _). exists m'; exact E.
 Qed.
 (* a stream never panics: the negative form *)
 Lemma c01_wrappers_no_panic_proof : forall e music bs w h cs s,
   wrapper e = true -> 1 <= w <= 132 -> 1 <= h <= 60 -> run e (init music bs w h) cs <> RunPanic s.
 Proof.
   intros e music bs w h cs s He Hw Hh.
-  destruct (c01_wrappers_proof e music bs w h cs He Hw Hh) as [(m' & E)|(E & _)]; rewrite E; discriminate.
+  destruct (c01_wrappers_proof e music bs w h cs He Hw Hh) as (m' & E); rewrite E; discriminate.
 Qed.
 (* the weak invariant after every stream: also after a resize the cursor has non-negative coordinates, the margins are
    ordered and non-negative, origin mode is never WithinMargins *)
@@ -155,6 +106,6 @@ Lemma c01_wrappers_state_proof : forall e music bs w h cs m',
   wrapper e = true -> 1 <= w <= 132 -> 1 <= h <= 60 -> run e (init music bs w h) cs = RunOk m' -> W (mt m').
 Proof.
   intros e music bs w h cs m' He Hw Hh R.
-  destruct (run_np e cs (init music bs w h) He (init_W music bs w h Hw Hh)) as [(m2 & E & H2)|(E & _)]; rewrite E in R; [|discriminate].
+  destruct (run_np e cs (init music bs w h) He (init_W music bs w h Hw Hh)) as (m2 & E & H2); rewrite E in R.
   inversion R; subst; exact H2.
 Qed.
